@@ -165,12 +165,12 @@ func takeCPUs(
 			cpusPerCore := acc.topology.CPUsPerCore()
 			for _, cpus := range freeCPUs {
 				for i := 0; i < len(cpus); i += cpusPerCore {
+					if !acc.needs(cpusPerCore) {
+						break
+					}
 					acc.take(cpus[i : i+cpusPerCore]...)
 					if acc.isSatisfied() {
 						return acc.result, nil
-					}
-					if !acc.needs(cpusPerCore) {
-						break
 					}
 				}
 			}
